@@ -12,7 +12,7 @@
    number of such contributions, counted with multiplicity. *)
 From Coq Require Import List NArith Arith Bool.
 From Verif.Common Require Import Labels Prefix.
-From Verif.C04 Require Import Model Spec Sets Refs Counts Proofs State Inv Main View ViewThms MeetsSpec Addr Trie.
+From Verif.C04 Require Import Model Spec Sets Refs Counts Proofs State Inv Main View ViewThms MeetsSpec Addr Trie Extract.
 Import ListNotations.
 
 (* Each member once however many endpoints contribute it: over any history, any iteration order and
@@ -170,6 +170,15 @@ Theorem c04_trie_on_removed_refines : forall sid T s m T' evs,
              Rts T' (s_trie (fst (on_removed true sh sid s m))).
 Proof. exact on_removed_trie_sim. Qed.
 Print Assumptions c04_trie_on_removed_refines.
+
+(* extractCIDRsFromNetworkSet keeps the addresses of a network set: masking the nets and writing a /0 as its
+   two /1 halves (v4 and v6) leaves the set of contained addresses unchanged.  [raw_in c f a]: a lies in net c as
+   written in the resource. *)
+Theorem c04_netset_extract_same_addresses : forall nets f a,
+  (forall c, In c nets -> raw_ok KNetSet c) -> (a < 2 ^ N.of_nat (width f))%N ->
+  ((exists e, In e (extract KNetSet nets) /\ caddr_in e f a = true) <-> (exists c, In c nets /\ raw_in c f a)).
+Proof. exact c04_netset_extract_same_addresses_proof. Qed.
+Print Assumptions c04_netset_extract_same_addresses.
 
 (* Named-port members always carry a real protocol (TCP, UDP or SCTP), never "none". *)
 Theorem c04_named_port_protocol : forall e, protocol_from e <> P_NONE.
